@@ -34,7 +34,9 @@ def judgeNest (depth : Nat) (op : String) (impl : List String) : Judged :=
     let what := (impl.headD "").drop 6 |>.toString
     -- the model has no notion of a process running out of stack, memory or time: it makes no
     -- prediction here (agree); the Spec verdict judges the crash
-    { model := implStr, fails := [s!"C03:deep-nesting-{what}:{op}"], tags := [s!"nest depth={depth} op={op} crash"] }
+    -- running out of time while rendering / serialising is the superlinear cost itself
+    let cause := if what = "timeout" ∧ op ≠ "decode" then s!"C03:memory-superlinear-in-nesting-depth:{op}" else s!"C03:deep-nesting-{what}:{op}"
+    { model := implStr, fails := [cause], tags := [s!"nest depth={depth} op={op} crash"] }
   else
     let n := (kvNat impl "bytes").getD 0
     let inp := (kvNat impl "in").getD 1
